@@ -82,8 +82,18 @@ class RaftNode(Entity):
         self._network = network
         self._peers: list[RaftNode] = list(peers) if peers else []
         self._state_machine = state_machine or KVStateMachine()
+        if election_timeout_min <= 0:
+            # a periodic timer with a zero period re-arms itself at the current instant forever
+            raise ValueError(f"election_timeout_min must be > 0, got {election_timeout_min}")
+        if election_timeout_max < election_timeout_min:
+            raise ValueError(
+                f"election_timeout_max ({election_timeout_max}) must be >= election_timeout_min ({election_timeout_min})"
+            )
         self._election_timeout_min = election_timeout_min
         self._election_timeout_max = election_timeout_max
+        if heartbeat_interval <= 0:
+            # a periodic timer with a zero period re-arms itself at the current instant forever
+            raise ValueError(f"heartbeat_interval must be > 0, got {heartbeat_interval}")
         self._heartbeat_interval = heartbeat_interval
 
         # Persistent state
